@@ -54,6 +54,7 @@ type sessKind struct {
 	eof       bool   // the server closes right after the burst
 	connectTo bool   // password given through ConnectTo
 	stall     bool   // the server never reads: the registration lines stay queued until the connection ends
+	flood     bool   // flood control on, the penalty already near the threshold (as after a quick reconnect): PASS itself is held back
 	second    string // a second session on the same client with another password, given through "connectTo" or "config"
 }
 
@@ -64,7 +65,8 @@ func kinds() []sessKind {
 		{name: "stalled-server+close", stall: true}, {name: "negotiation+stalled-server+close", stall: true, neg: true},
 		{name: "negotiation+stalled-server+eof", stall: true, neg: true, eof: true},
 		{name: "second-session-password-by-ConnectTo", second: "connectTo"}, {name: "second-session-password-in-Config", second: "config", neg: true},
-		{name: "ConnectTo-then-second-ConnectTo", connectTo: true, second: "connectTo"}}
+		{name: "ConnectTo-then-second-ConnectTo", connectTo: true, second: "connectTo"},
+		{name: "flood-control-on+penalty-near-threshold", flood: true}, {name: "negotiation+flood-control-on+penalty-near-threshold", flood: true, neg: true}}
 	for n := 1; n <= 4; n++ {
 		ks = append(ks, sessKind{name: fmt.Sprintf("write-%d-fails", n), failWrite: n})
 		ks = append(ks, sessKind{name: fmt.Sprintf("negotiation+write-%d-fails", n), failWrite: n, neg: true})
@@ -76,6 +78,7 @@ func runSession(k sessKind, pw string, lg *capLog) []string {
 	lg.take()
 	s := sess.New(func(c *client.Config) {
 		c.EnableCapabilityNegotiation = k.neg
+		c.Flood = !k.flood
 		if !k.connectTo {
 			c.Pass = pw
 			if k.second != "" {
@@ -99,6 +102,10 @@ func runSession(k sessKind, pw string, lg *capLog) []string {
 			c.FailWrite(k.failWrite, errors.New("fakenet: broken pipe"))
 		}
 		return c, nil
+	}
+	if k.flood {
+		// the penalty of an earlier session survives a reconnect: start just below the threshold
+		client.VerifSetFloodState(s.C, 9800*time.Millisecond, time.Now())
 	}
 	disc := make(chan struct{}, 2)
 	s.C.HandleFunc(client.DISCONNECTED, func(*client.Conn, *client.Line) { disc <- struct{}{} })
@@ -131,6 +138,13 @@ func runSession(k sessKind, pw string, lg *capLog) []string {
 				case <-disc:
 				case <-time.After(2 * time.Second):
 				}
+			}
+		} else if k.flood {
+			// the registration lines are written one rate-limited line at a time; PASS is enough
+			if pw != "" {
+				s.Srv.WaitLine("PASS ", 0, 8*time.Second)
+			} else {
+				s.Srv.WaitLine("NICK ", 0, 8*time.Second)
 			}
 		} else {
 			s.Srv.WaitLine("USER ", 0, 2*time.Second)
@@ -240,8 +254,11 @@ func RunLog(args []string) int {
 	}
 	sessions, records, skipped := 0, 0, 0
 	var sample interface{}
-	for _, pw := range pws[:*np] {
+	for pi, pw := range pws[:*np] {
 		for _, k := range ks {
+			if k.flood && pi >= 2 {
+				continue // seconds per session: the first two passwords only
+			}
 			if strings.Contains(baseline[k.name], pw) || strings.Contains("-> PASS **************", pw) {
 				skipped++ // the password is a substring of what this session logs anyway
 				continue
